@@ -151,6 +151,34 @@ STRINGS = ["", "a", "ab", "xyz", "héé", "日本", "1234567", "12345678", "éé
            "éèêëà", "日本語日本語日", "ß" * 9, "\U0001F600" * 3]
 
 
+class StrVal(list):
+    """string value (its bytes) that also remembers, for generation only, the capacity class of the box it lives in:
+    slot = number of 8-byte slots of text+NUL fixed at creation, None = unknown (e.g. after a copy of a box with slack)"""
+    slot = None
+
+
+def natural_slot(nbytes):
+    return (nbytes + 1 + 7) // 8
+
+
+def strval(data, slot):
+    v = StrVal(data)
+    v.slot = slot
+    return v
+
+
+def has_slack(tx, v):
+    """does the value contain a string whose box is not exactly as large as a fresh box for its text would be (or unknown)?"""
+    k = tx["k"]
+    if k == "str":
+        return getattr(v, "slot", None) is None or v.slot != natural_slot(len(v))
+    if k == "struct":
+        return any(has_slack(f, w) for f, w in zip(tx["f"], v))
+    if k == "arr":
+        return any(has_slack(tx["it"], w) for w in v["it"])
+    return False
+
+
 def gen_scalar(kind, rng):
     """-> (bytes list, python value)"""
     if kind.startswith("Float"):
@@ -204,14 +232,21 @@ class Gen:
             return gen_scalar(tx["np"], rng)
         if k == "str":
             if like is not None:
-                slot = (len(like) + 1 + 7) // 8       # same box: the stored size of the string does not change
-                cands = [s for s in STRINGS if (len(s.encode()) + 1 + 7) // 8 == slot]
-                if self.shorter_strings and _top and rng.random() < 0.3:     # a shorter text fits as well (leaf assignment only)
-                    cands = [s for s in STRINGS if (len(s.encode()) + 1 + 7) // 8 <= slot]
+                nat = natural_slot(len(like))
+                cap = getattr(like, "slot", nat)
+                if cap is None:                     # capacity unknown: anything not larger than the current text certainly fits
+                    cands, slot = [s for s in STRINGS if natural_slot(len(s.encode())) <= nat], None
+                elif _top and self.shorter_strings and rng.random() < 0.3:      # leaf assignment: a shorter text fits as well
+                    cands, slot = [s for s in STRINGS if natural_slot(len(s.encode())) <= cap], cap
+                else:                               # same box size: every stored size stays what it is
+                    cands, slot = [s for s in STRINGS if natural_slot(len(s.encode())) == cap], cap
                 s = rng.choice(cands) if cands else bytes(like).decode()
+                if not cands:
+                    slot = cap
             else:
                 s = rng.choice(STRINGS)
-            return list(s.encode("utf8")), s
+                slot = natural_slot(len(s.encode()))
+            return strval(s.encode("utf8"), slot), s
         if k == "struct":
             vs = [self.value(f, b, None if like is None else like[i], False, _inarr) for i, f in enumerate(tx["f"])]
             return [v[0] for v in vs], {self.ns.fname(i): v[1] for i, v in enumerate(vs)}
